@@ -1,6 +1,5 @@
-(* C04 — the model's own trace satisfies the fresh_survives clause of the oracle (with the search
-   stopping at an Untrash of the same hash, i.e. outside the F20 trigger), for every configuration,
-   every initial state and every history with a non-decreasing clock. *)
+(* C04 — the model's own trace satisfies the fresh_survives clause of the oracle, for every
+   configuration, every initial state and every history (Untrash included) with a non-decreasing clock. *)
 From Coq Require Import ZArith NArith List String Bool Lia.
 From AV Require Import lib.Str model.C04_model model.C04_run proofs.C04_proofs proofs.C04_spec_proofs.
 Import ListNotations.
@@ -29,24 +28,22 @@ Qed.
 
 Lemma fresh_later_model c h t : forall hs s prev,
   nondecr prev hs -> (Fresh h t (vols s) \/ t + ttl c <= prev) -> t <= prev ->
-  FreshLater c true h t (obs_run c s hs).
+  FreshLater c false h t (obs_run c s hs).
 Proof.
   induction hs as [|[now o] r IH]; intros s prev Hn Hinv Ht; cbn [obs_run]; [constructor|].
   cbn [nondecr] in Hn. destruct Hn as [Hle Hn].
   destruct (step c s now o) as [code s'] eqn:Es.
-  destruct (op_eq_dec_untrash o h) as [->|Ne].
-  - apply FL_stop; reflexivity.
   - assert (Hs' : s' = snd (step c s now o)) by (rewrite Es; reflexivity).
     assert (Hinv' : Fresh h t (vols s') \/ t + ttl c <= now).
     { destruct (Z_lt_le_dec now (t + ttl c)) as [L|L]; [left|right; exact L].
-      destruct Hinv as [F|F]; [|lia]. subst s'. eapply Forall2_keeps; [apply step_keeps; [lia|exact L|exact Ne]|exact F]. }
+      destruct Hinv as [F|F]; [|lia]. subst s'. eapply Forall2_keeps; [apply step_keeps; [lia|exact L]|exact F]. }
     apply FL_cons.
-    + right. cbn. exact Ne.
+    + left. reflexivity.
     + cbn [s_now s_after St]. destruct Hinv' as [F|F]; [right; apply fresh_has with (t := t); exact F|left; exact F].
     + eapply IH; [exact Hn|exact Hinv'|lia].
 Qed.
 
-Theorem model_fresh_ok c : forall hs s prev, nondecr prev hs -> FreshOk c true (obs_run c s hs).
+Theorem model_fresh_ok c : forall hs s prev, nondecr prev hs -> FreshOk c false (obs_run c s hs).
 Proof.
   induction hs as [|[now o] r IH]; intros s prev Hn; cbn [obs_run]; [constructor|].
   cbn [nondecr] in Hn. destruct Hn as [Hle Hn].
@@ -63,5 +60,5 @@ Proof.
   eapply fresh_later_model; [exact Hn|left; exact F|lia].
 Qed.
 
-Corollary model_fresh_ok_b c hs s prev : nondecr prev hs -> fresh_ok c true (obs_run c s hs) = true.
+Corollary model_fresh_ok_b c hs s prev : nondecr prev hs -> fresh_ok c false (obs_run c s hs) = true.
 Proof. intros Hn. apply fresh_ok_iff. eapply model_fresh_ok. exact Hn. Qed.
